@@ -138,3 +138,24 @@ theorem get?_of_mem_noDup (m : List (α × β)) (k : α) (v : β) (hn : NoDupKey
       · simp [get?, hk]; exact ih hn.2 h
 
 end Nun.AL
+
+namespace Nun.AL
+variable {α : Type} {β : Type} [DecidableEq α]
+
+theorem keys_erase_sublist (m : List (α × β)) (k : α) : ((erase m k).map (·.1)).Sublist (m.map (·.1)) := by
+  induction m with
+  | nil => simp [erase]
+  | cons hd t ih =>
+    obtain ⟨k0, v0⟩ := hd
+    by_cases hk : k0 = k
+    · simp only [erase, hk, if_true, List.map_cons]; exact List.Sublist.cons _ ih
+    · simp only [erase, hk, if_false, List.map_cons]; exact List.Sublist.cons₂ _ ih
+
+theorem noDupKeys_erase (m : List (α × β)) (k : α) (h : NoDupKeys m) : NoDupKeys (erase m k) :=
+  List.Nodup.sublist (keys_erase_sublist m k) h
+
+theorem mem_iff_get?_of_noDup (m : List (α × β)) (k : α) (v : β) (hn : NoDupKeys m) :
+    (k, v) ∈ m ↔ get? m k = some v :=
+  ⟨get?_of_mem_noDup m k v hn, mem_of_get? m k v⟩
+
+end Nun.AL
